@@ -24,7 +24,11 @@ ValsOf(shape, ty) ==
     [] shape = "arr" -> {Arr(a) : a \in Arrs}
     [] shape = "obj" -> {Obj(o) : o \in Objs}
 Rows == {[c |-> c, ty |-> ty] : c \in {x \in AllCfgs : Admitted(x)}, ty \in {"str", "int", "num", "dt", "date"}} \ {r \in [c : AllCfgs, ty : {"int", "num", "dt", "date"}] : r.c.shape # "prim"}
-Bodies == {Obj(<<IntV(1), s, on, l, dn>>) : s \in {Absent, Str(<<120>>), Str(<<>>)}, on \in {Absent, Null, Str(<<121>>)}, l \in {Absent, Arr(<<>>), Arr(<<IntV(1), IntV(2)>>)}, dn \in {Null, Str(<<122>>)}}
+\* instants of the unix-seconds member: today, the last second of year 9999, the year 1600 (both more
+\* than 2^63 nanoseconds away from 1970) and one second before the epoch
+Instants == {Absent, TimeT("2020-01-02T03:04:05Z"), TimeT("9999-12-31T23:59:59Z"), TimeT("1600-01-01T00:00:00Z"), TimeT("1969-12-31T23:59:59Z")}
+Bodies == {Obj(<<IntV(1), s, on, l, dn, Absent>>) : s \in {Absent, Str(<<120>>), Str(<<>>)}, on \in {Absent, Null, Str(<<121>>)}, l \in {Absent, Arr(<<>>), Arr(<<IntV(1), IntV(2)>>)}, dn \in {Null, Str(<<122>>)}}
+          \cup {Obj(<<IntV(1), Absent, Absent, Absent, Null, u>>) : u \in Instants}
 FormStrs == {Str(<<120>>), Str(<<A, 32, 98>>), Str(<<A, AMP, 98, EQ, 99>>), Str(<<195, 169>>), Str(<<43>>), Str(<<PCT, 52, 49>>), Str(<<A, 10, 98>>), Str(<<>>), Str(<<59>>)}
 Forms == {Obj(<<a, n, l, d, dn>>) : a \in FormStrs, n \in {Absent, IntV(7)}, l \in {Absent, Arr(<<Str(<<112>>), Str(<<113, COMMA, 114>>)>>)}, d \in {Absent, Str(<<122>>)}, dn \in {Absent, Str(<<113>>)}}
 RespCodes == {0, 100, 200, 201, 204, 302, 400, 404, 499, 500, 599}
